@@ -91,7 +91,8 @@ def _operand(t, vn):
 
 
 def render_term(t, varname=None):
-    vn = varname or (lambda i: "_" if i >= 900 else "V%d" % i)
+    # named variables may start with an underscore (they are ordinary variables, unlike the bare `_`)
+    vn = varname or (lambda i: "_" if i >= 900 else ("_V%d" % i if i % 4 == 3 else "V%d" % i))
     k = t["t"]
     if k == "a":
         return render_atom(t["n"])
